@@ -159,6 +159,16 @@ def wf_table(rng, sep, transposed=None, kinds=None, n_row=None):
     with warnings.catch_warnings():
         warnings.simplefilter("ignore")
         t = Table(df, name=name, destinations=dests, units=units, transposed=transposed)
+        if len(names) >= 2 and rng.random() < 0.25:
+            # another route to the same table: build it with the columns in another order, look at it once, then
+            # select the columns back into the intended order and wrap that frame (Table(t0.df[names]))
+            perm = list(range(len(names)))
+            rng.shuffle(perm)
+            t0 = Table(df[[names[k] for k in perm]], name=name, destinations=dests,
+                       units=[units[k] for k in perm], transposed=transposed)
+            _ = t0.units
+            t = Table(t0.df[names])
+            t.metadata.transposed = transposed
     if any(c in sep_chars_of_render(t) for c in bad):
         return wf_table(rng, sep, transposed, kinds, n_row)   # a numeral / timestamp contains the separator: not admissible
     return t, kinds
